@@ -925,4 +925,393 @@ theorem handleData_np (e : Engine) (bs : Bytes) (hinv : Inv e) (hx : Extra false
         | false => rfl
         | true => rw [hcu] at this; exact absurd rfl this
 
+/-! ### service: seating the next operation -/
+
+theorem acquireIdFor_keeps_op (e : Engine) (hok : e.core.Ok) (id : Nat) (o : Op) (ho : e.op? id = some o) :
+    ((e.acquireIdFor id).1.op? id).isSome = true := by
+  unfold Engine.acquireIdFor
+  rw [ho]
+  simp only []
+  split
+  · rw [ho]; rfl
+  · split
+    · rw [ho]; rfl
+    · have hc := acquireFreeId_core e id
+      cases hf : (e.acquireFreeId id).2 with
+      | none =>
+        have hh : e.acquireFreeId id = ((e.acquireFreeId id).1, none) := by rw [← hf]
+        rw [hh]
+        simp only []
+        show ((e.acquireFreeId id).1.ops.lookup id).isSome = true
+        rw [hc.2, show e.ops.lookup id = some o from ho]; rfl
+      | some pid =>
+        have hh : e.acquireFreeId id = ((e.acquireFreeId id).1, some pid) := by rw [← hf]
+        rw [hh]
+        simp only []
+        have hid := hok.id_eq (show e.core.ops.lookup id = some o from ho)
+        simp only [Engine.setOp, Engine.op?]
+        rw [hid, lookup_mapInsert_self]; rfl
+
+theorem lastChance_nps (e4 : Engine) (packet : Packet) (r : Resolution) (hs : e4.settings.isSome = true ∨ isConnectPacket packet = true) :
+    VRes.NPS (e4.lastChance packet r) := by
+  unfold Engine.lastChance
+  have h1 := validateOutboundInternal_nps packet e4.settings (e4.cfg.connect.sessionExpiry.getD 0) (some r) hs
+  cases hv : validateOutboundInternal packet e4.settings (e4.cfg.connect.sessionExpiry.getD 0) (some r) with
+  | error x => rw [hv] at h1; exact h1
+  | ok u =>
+    simp only []
+    unfold validateForVersion
+    split
+    · exact okIf_nps _
+    · exact ok_nps
+
+/-- what a seat attempt may end in -/
+def Seat.Fine : Seat → Prop
+  | .ret _ r => r.NP
+  | .cont _ => True
+  | .encode e' => ∃ id, e'.current = some id
+
+theorem rejectCurrent_fine (e4 : Engine) (id : Nat) (resolution : Resolution) (x : VErr) (hok : e4.core.Ok) :
+    (e4.rejectCurrent id resolution x).Fine := by
+  unfold Engine.rejectCurrent
+  simp only []
+  have hk : ({ (if resolution.alias.isSome then ({ e4 with outRes := e4.outRes.reset ((e4.settings.map (·.topicAliasMaximum)).getD 0) } : Engine) else e4) with current := none } : Engine).core.Ok := by
+    split <;> exact hok
+  have n := completeFailure_np _ id x.name hk
+  generalize ({ (if resolution.alias.isSome then ({ e4 with outRes := e4.outRes.reset ((e4.settings.map (·.topicAliasMaximum)).getD 0) } : Engine) else e4) with current := none } : Engine).completeFailure id x.name = y at n ⊢
+  obtain ⟨e5, r5⟩ := y
+  simp only [] at n ⊢
+  split
+  · exact n
+  · split
+    · exact Res.NP.err _
+    · trivial
+
+theorem prepareCurrent_fine (e3 : Engine) (id : Nat) (o : Op) (hok : e3.core.Ok) (hc : e3.current = some id)
+    (hs : e3.settings.isSome = true ∨ isConnectPacket (o.pubrel.getD o.packet) = true) : (e3.prepareCurrent id o).Fine := by
+  unfold Engine.prepareCurrent
+  simp only []
+  generalize e3.resolveOutbound (o.pubrel.getD o.packet) = rr
+  obtain ⟨res', resolution⟩ := rr
+  simp only []
+  have hl := lastChance_nps ({ e3 with outRes := res' } : Engine) (o.pubrel.getD o.packet) resolution hs
+  cases hv : ({ e3 with outRes := res' } : Engine).lastChance (o.pubrel.getD o.packet) resolution with
+  | error x =>
+    cases x with
+    | panicNoSettings => rw [hv] at hl; exact absurd rfl hl
+    | _ => exact rejectCurrent_fine _ id resolution _ hok
+  | ok u =>
+    simp only []
+    cases packetSteps e3.cfg.version resolution (o.pubrel.getD o.packet) with
+    | error x => cases x <;> exact Res.NP.err _
+    | ok steps => exact ⟨id, hc⟩
+
+theorem settings_of_connected (e : Engine) (hb : Big [] [] e.view) (hst : e.state = .connected) : e.settings.isSome = true := by
+  obtain ⟨rm, hrm, _⟩ := hb.f hst
+  have : e.settings.map (·.receiveMaximum) = some rm := hrm
+  cases hs : e.settings with
+  | none => rw [hs] at this; cases this
+  | some s => rfl
+
+theorem seatCurrent_fine (e : Engine) (all : Bool) (hok : e.core.Ok) (hb : Big [] [] e.view) (h : Extra false [] e.view)
+    (hall : all = true → e.state = .connected) (hrun : e.state = .connected ∨ e.state = .pendingConnack) : (e.seatCurrent all).Fine := by
+  unfold Engine.seatCurrent
+  cases hc : e.current with
+  | some c => exact ⟨c, hc⟩
+  | none =>
+    simp only []
+    obtain ⟨hd, hcn, hcore, hst, hseat⟩ := dequeue_extra e all hb h hc
+    have hset : (e.dequeue all).1.settings = e.settings := by
+      rcases dequeue_cases e all with ⟨_, he⟩ | ⟨_, _, _, he⟩ | ⟨_, _, _, _, _, _, he⟩ | ⟨_, _, _, _, _, _, _, he⟩ <;> rw [he]
+    generalize e.dequeue all = dq at hd hcn hcore hst hseat hset
+    obtain ⟨e1, next⟩ := dq
+    cases next with
+    | none => exact Res.NP.ok
+    | some id =>
+      simp only []
+      have hops : e1.ops = e.ops := congrArg Core.ops hcore
+      split
+      · trivial
+      · rename_i hex
+        obtain ⟨hfrom, hsetc⟩ := hseat id rfl
+        obtain ⟨o0, ho0⟩ : ∃ o, e1.ops.lookup id = some o := by
+          cases ho : e1.ops.lookup id with
+          | none => exfalso; apply hex; simp [Engine.op?, ho]
+          | some o => exact ⟨o, rfl⟩
+        have hex2 : ∃ o, e.ops.lookup id = some o := ⟨o0, by rw [← hops]; exact ho0⟩
+        have h2 := hsetc hex2
+        have hok2 : ({ e1 with current := some id } : Engine).core.Ok := by
+          show e1.core.Ok; rw [hcore]; exact hok
+        have h3 := acquireIdFor_extra ({ e1 with current := some id } : Engine) id hok2 h2
+        obtain ⟨f1, _, f3, f4, _, _, _⟩ := acquireIdFor_frame ({ e1 with current := some id } : Engine) id
+        have hok3 := ((acquireIdFor_pres ({ e1 with current := some id } : Engine) id) hok2).1
+        have hres := acquireIdFor_result ({ e1 with current := some id } : Engine) id o0 ho0
+        have hkeep := acquireIdFor_keeps_op ({ e1 with current := some id } : Engine) hok2 id o0 ho0
+        have hlk := acquireIdFor_lookup ({ e1 with current := some id } : Engine) hok2 id id
+        generalize ({ e1 with current := some id } : Engine).acquireIdFor id = ar at h3 f1 f3 f4 hok3 hres hkeep hlk
+        obtain ⟨e3, r⟩ := ar
+        simp only [] at h3 f1 f3 f4 hok3 hres hkeep hlk ⊢
+        split
+        · rcases hres with a | a <;> (rw [a]; first | exact Res.NP.ok | exact Res.NP.err _)
+        · cases ho3 : e3.op? id with
+          | none => rw [ho3] at hkeep; cases hkeep
+          | some o =>
+            simp only []
+            refine prepareCurrent_fine e3 id o hok3 f4 ?_
+            rcases hrun with hcn' | hpc
+            · left
+              rw [f3]
+              show e1.settings.isSome = true
+              rw [hset]
+              exact settings_of_connected e hb hcn'
+            · right
+              obtain ⟨x, hx, _, _, hcc, _⟩ := hlk o ho3
+              have hmem : id ∈ e.highQ := by
+                rcases hfrom with a | a
+                · exact a
+                · have := hall a; rw [hpc] at this; cases this
+              have hcx : isConnectPacket x.packet = true :=
+                (hb.h1 hpc).1 id (List.mem_append_left _ hmem) x (by show e.ops.lookup id = some x; rw [← hops]; exact hx)
+              have hco : isConnectPacket o.packet = true := by rw [hcc]; exact hcx
+              -- a CONNECT holds no PUBREL
+              cases hp : o.pubrel with
+              | none => exact hco
+              | some pr =>
+                exfalso
+                have hq := h3.x8 id o ho3 (by rw [hp]; rfl)
+                cases hpk : o.packet with
+                | publish pb => rw [hpk] at hco; cases hco
+                | _ => rw [hpk] at hq; cases hq
+
+/-! ### service: the loop -/
+
+theorem onFullyWritten_some (e : Engine) (id : Nat) (hc : e.current = some id) (ho : (e.op? id).isSome = true) : ∃ e3, e.onFullyWritten = some e3 := by
+  unfold Engine.onFullyWritten
+  rw [hc]
+  simp only []
+  cases hh : e.op? id with
+  | none => rw [hh] at ho; cases ho
+  | some o => exact ⟨_, rfl⟩
+
+/-- the loop of `service_queue_aux` never panics when the buffer can take a fixed header -/
+theorem serviceQueueAux_np (all : Bool) (cap : Nat) (hcap : 4 ≤ cap) : ∀ (fuel : Nat) (e : Engine), e.core.Ok → Big [] [] e.view →
+    Extra false [] e.view → (all = true → e.state ≠ .pendingConnack) → (Engine.serviceQueueAux all cap fuel e).2.NP := by
+  intro fuel
+  induction fuel with
+  | zero => intro e _ _ _ _; exact Res.NP.ok
+  | succ f ih =>
+    intro e hok hb h hall
+    unfold Engine.serviceQueueAux
+    split
+    · exact Res.NP.ok
+    · rename_i hrun
+      have hst : e.state = .connected ∨ e.state = .pendingConnack := by
+        cases hs : e.state <;> simp [hs] at hrun
+        · exact .inr rfl
+        · exact .inl rfl
+      have hall' : all = true → e.state = .connected := by
+        intro ha
+        rcases hst with a | a
+        · exact a
+        · exact absurd a (hall ha)
+      have so := seatCurrent_out e all hok hb hall'
+      have sp := seatCurrent_pres e all
+      have sx := seatCurrent_extra e all hok hb h hall'
+      have sf := seatCurrent_fine e all hok hb h hall' hst
+      cases hseat : e.seatCurrent all with
+      | ret e1 r => rw [hseat] at sf; exact sf
+      | cont e1 =>
+        rw [hseat] at so sp sx
+        exact ih e1 (sp hok).1 so.1 sx (fun ha hpc => hall ha (so.2.pc hpc))
+      | encode e1 =>
+        rw [hseat] at so sp sx sf
+        simp only []
+        have hok1 : e1.core.Ok := (sp hok).1
+        have h1 : Big [] [] e1.view := so.1
+        have sv1 : SV e e1 := so.2.1
+        have hste1 : e1.state = e.state := so.2.2
+        have x1 : Extra false [] e1.view := sx
+        obtain ⟨id, hc⟩ := sf
+        rw [hc]
+        simp only []
+        have hrun1 : e1.view.state = .connected ∨ e1.view.state = .pendingConnack := by
+          show e1.state = .connected ∨ e1.state = .pendingConnack
+          rw [hste1]; exact hst
+        obtain ⟨o, ho⟩ := x1.cur hrun1 id hc
+        have hsome : (e1.op? id).isSome = true := by rw [show e1.op? id = some o from ho]; rfl
+        have hnone : (e1.op? id).isNone = false := by rw [show e1.op? id = some o from ho]; rfl
+        rw [hnone]
+        simp only [Bool.false_eq_true, ↓reduceIte]
+        have hcapn : ¬ cap < 4 := by omega
+        rw [if_neg hcapn]
+        have h2 : Big [] [] (e1.encodeCurrent cap).1.view := h1
+        have hok2 : (e1.encodeCurrent cap).1.core.Ok := hok1
+        have sv2 : SV e (e1.encodeCurrent cap).1 := sv1.trans (SV.of_frame rfl rfl rfl)
+        have hst2 : (e1.encodeCurrent cap).1.state = e1.state := rfl
+        have x2 : Extra false [] (e1.encodeCurrent cap).1.view := x1
+        have hc2 : (e1.encodeCurrent cap).1.current = some id := hc
+        have ho2 : ((e1.encodeCurrent cap).1.op? id).isSome = true := hsome
+        generalize e1.encodeCurrent cap = y at h2 hok2 sv2 hst2 x2 hc2 ho2 ⊢
+        obtain ⟨e2, failed⟩ := y
+        simp only [] at h2 hok2 sv2 hst2 x2 hc2 ho2 ⊢
+        split
+        · exact Res.NP.err _
+        · split
+          · obtain ⟨e3, hw⟩ := onFullyWritten_some e2 id hc2 ho2
+            rw [hw]
+            simp only []
+            have hrun2 : e2.state = .connected ∨ e2.state = .pendingConnack := by rw [hst2, hste1]; exact hst
+            have ow := onFullyWritten_out e2 e3 hw hok2 h2 hrun2
+            have hok3 : e3.core.Ok := (onFullyWritten_pres e2 e3 hw hok2).1
+            have x3 := onFullyWritten_extra e2 e3 hw hok2 x2
+            exact ih e3 hok3 ow.1 x3 (fun ha hpc => hall ha (sv2.pc (ow.2.pc hpc)))
+          · exact Res.NP.ok
+
+theorem serviceQueue_np (e : Engine) (all : Bool) (cap prefill : Nat) (hcap : 4 ≤ cap) (hok : e.core.Ok) (hb : Big [] [] e.view)
+    (h : Extra false [] e.view) (hall : all = true → e.state ≠ .pendingConnack) : (e.serviceQueue all cap prefill).2.NP := by
+  unfold Engine.serviceQueue
+  simp only []
+  have r := serviceQueueAux_np all cap hcap (2 * (e.highQ.length + e.resubQ.length + e.userQ.length) + 4)
+    { e with outBytes := List.replicate (min prefill cap) 0 } hok hb h hall
+  generalize Engine.serviceQueueAux all cap (2 * (e.highQ.length + e.resubQ.length + e.userQ.length) + 4)
+    { e with outBytes := List.replicate (min prefill cap) 0 } = x at r ⊢
+  obtain ⟨e1, rr⟩ := x
+  exact r
+
+/-! ### service: keep-alive, timeouts, the whole call -/
+
+theorem queuePing_some (e : Engine) : ∃ e2, e.queuePing = some e2 ∧ e2.settings = e.settings := by
+  unfold Engine.queuePing
+  split
+  · exact ⟨e, rfl, rfl⟩
+  · obtain ⟨e2, h2⟩ := enqueue_some_of_tracked (e.createOp .pingreq none).1 (e.createOp .pingreq none).2 .high true (by
+      simp [Engine.createOp, Engine.op?, lookup_mapInsert_self])
+    refine ⟨e2, h2, ?_⟩
+    unfold Engine.enqueue at h2
+    split at h2
+    · cases h2
+    · simp only [Option.some.injEq] at h2
+      rw [← h2]; rfl
+
+theorem serviceKeepAlive_np (e : Engine) (hb : Big [] [] e.view) (hst : e.state = .connected) : e.serviceKeepAlive.2.NP := by
+  unfold Engine.serviceKeepAlive
+  split
+  · split
+    · exact Res.NP.err _
+    · exact Res.NP.ok
+  · split
+    · split
+      · obtain ⟨e2, h2, hs2⟩ := queuePing_some e
+        rw [h2]
+        simp only []
+        have := settings_of_connected e hb hst
+        obtain ⟨s, hs⟩ := Option.isSome_iff_exists.mp this
+        rw [hs2, hs]
+        exact Res.NP.ok
+      · exact Res.NP.ok
+    · exact Res.NP.ok
+
+theorem processAckTimeouts_np : ∀ (fuel : Nat) (e : Engine), e.core.Ok → (Engine.processAckTimeouts fuel e).2.NP := by
+  intro fuel
+  induction fuel with
+  | zero => intro e _; exact Res.NP.ok
+  | succ f ih =>
+    intro e hok
+    unfold Engine.processAckTimeouts
+    split
+    · exact Res.NP.ok
+    · rename_i id deadline _
+      split
+      · simp only []
+        have hok1 : ({ e with timeouts := e.timeouts.erase (id, deadline) } : Engine).core.Ok := hok
+        have n1 := completeFailure_np _ id "AckTimeout" hok1
+        have hok2 := ((completeFailure_pres ({ e with timeouts := e.timeouts.erase (id, deadline) } : Engine) id "AckTimeout") hok1).1
+        exact n1.fold (ih _ hok2)
+      · exact Res.NP.ok
+
+theorem serviceCore_np (e : Engine) (cap prefill : Nat) (hcap : 4 ≤ cap) (hinv : Inv e) (h : Extra false [] e.view) :
+    (e.serviceCore cap prefill).2.NP := by
+  obtain ⟨hok, hb, hD, hS⟩ := hinv
+  unfold Engine.serviceCore
+  cases hst : e.state with
+  | disconnected => exact Res.NP.ok
+  | halted => exact Res.NP.err _
+  | pendingDisconnect =>
+    simp only []
+    exact processAckTimeouts_np _ e hok
+  | pendingConnack =>
+    simp only []
+    have hcs : e.connackDeadline.isSome = true := (h.h1e hst).2
+    obtain ⟨d, hd⟩ := Option.isSome_iff_exists.mp hcs
+    rw [hd]
+    simp only []
+    split
+    · exact Res.NP.err _
+    · exact serviceQueue_np e false cap prefill hcap hok hb h (fun hh => by cases hh)
+  | connected =>
+    simp only []
+    have hka := serviceKeepAlive_hk e (by rw [hst]; decide)
+    have hoka := (hka.stp.pres hok).1
+    have ha := hka.stp.keeps hok hb
+    have sva := hka.sv
+    have xa := serviceKeepAlive_extra e ⟨hok, hb, hD, hS⟩ h
+    have na := serviceKeepAlive_np e hb hst
+    generalize e.serviceKeepAlive = ka at hka hoka ha sva xa na ⊢
+    obtain ⟨ea, ra⟩ := ka
+    simp only [] at hoka ha sva xa na ⊢
+    split
+    · exact na
+    · have hsta : ea.state ≠ .pendingConnack := fun hh => by
+        have := sva.pc hh; rw [hst] at this; cases this
+      have nb := serviceQueue_np ea true cap prefill hcap hoka ha xa (fun _ => hsta)
+      have okb := ((serviceQueue_pres ea true cap prefill) hoka).1
+      generalize ea.serviceQueue true cap prefill = qb at nb okb ⊢
+      obtain ⟨eb, rbr⟩ := qb
+      simp only [] at nb okb ⊢
+      split
+      · exact nb
+      · exact processAckTimeouts_np _ eb okb
+
+theorem service_np (e : Engine) (cap prefill : Nat) (hcap : 4 ≤ cap) (hinv : Inv e) (h : Extra false [] e.view) :
+    (e.service cap prefill).2.NP := by
+  have hc := serviceCore_np e cap prefill hcap hinv h
+  unfold Engine.service
+  generalize e.serviceCore cap prefill = x at hc ⊢
+  obtain ⟨e1, r⟩ := x
+  simp only [] at hc ⊢
+  split
+  · exact hc
+  · exact hc
+  · exact hc
+
+/-! ### every event, every history -/
+
+/-- the only demand on the driver: a service call offers room for a fixed header (the encoder refuses less) -/
+def Event.capOk : Event → Prop
+  | .service _ cap _ => 4 ≤ cap
+  | _ => True
+
+theorem haltOnErr_np (x : Engine × Res) (h : x.2.NP) : (haltOnErr x).2.NP := by
+  unfold haltOnErr
+  split
+  · exact h
+  · exact h
+
+/-- **One step never panics** from a state that satisfies the invariant -/
+theorem step_np (e : Engine) (ev : Event) (hinv : Inv2 e) (hcap : ev.capOk) : (step e ev).2.result.NP := by
+  obtain ⟨hi, hx⟩ := hinv
+  have hb : ∀ t, Inv (e.begin t) := fun t => by
+    obtain ⟨hok, h, hD, hS⟩ := hi
+    exact ⟨⟨hok.sorted, hok.ids, hok.userKind, hok.wc, hok.slow⟩, h, hD, hS⟩
+  have hbx : ∀ t, Extra false [] (e.begin t).view := fun t => hx
+  cases ev with
+  | user t u => exact handleUser_np (e.begin t) u
+  | opened t d => exact haltOnErr_np _ (handleOpened_np (e.begin t) d)
+  | closed t => exact haltOnErr_np _ (handleClosed_np (e.begin t) (hb t))
+  | data t bs => exact haltOnErr_np _ (handleData_np (e.begin t) bs (hb t) (hbx t))
+  | writeDone t => exact haltOnErr_np _ (handleWriteCompletion_np (e.begin t) (hb t).1)
+  | service t cap pre => exact service_np (e.begin t) cap pre hcap (hb t) (hbx t)
+  | queryNext t => exact Res.NP.ok
+  | reset t => exact Res.NP.ok
+
 end GV
